@@ -16,7 +16,7 @@ def seq_ob(name, scen, ksteps, qsize, desc, wit):
 def obligations(tier):
     q = tier == 'quick'
     obs = []
-    K = 6 if q else 10
+    K = 6 if q else 7
     obs.append(seq_ob('seq_ops', 1, K, 4 if q else 8,
                       'symbolic sequence of %d operations (defer_rcu with fully symbolic 64-bit function and argument patterns / rcu_defer_barrier_thread / '
                       'rcu_defer_barrier) on a ring of %d entries: wrap-around and the full-queue self-flush are inside the bound' % (K, 4 if q else 8),
